@@ -16,6 +16,7 @@ ActFor(act) ==
   CASE act.a = "ev"      -> Ev(act.lt, act.k)
     [] act.a = "qry"     -> Qry(act.lt, act.id, act.nb, act.flt)
     [] act.a = "merge"   -> Merge([elt |-> act.elt, qlt |-> act.qlt, evs |-> act.evs], act.join, act.ign)
+    [] act.a = "join"    -> Join([elt |-> act.elt, qlt |-> act.qlt, evs |-> act.evs], act.ign)
     [] act.a = "uev"     -> Uev(act.k)
     [] act.a = "lq"      -> Lq
     [] act.a = "restart" -> \E re \in -1..MAX, rq \in -1..MAX : Restart(act.crash, re, rq)
